@@ -191,3 +191,34 @@ void h_readFile_loop(void)
   if (ok && G_eintr_seen && G_short_seen && G_file_pos > 65536) { IORA_CANARY("h_readFile_loop: content after EINTR and short reads"); }
   if (!ok && G_file_pos > 0) { IORA_CANARY("h_readFile_loop: error after partial content"); }
 }
+
+/* ------------------------------------------------------------------------------------------------------------------------------
+ * getStaticEmbedded incl. its EXTERNAL_DIR branch (RD-11): the same ordering clause as getStaticFilesystem, the containment base being
+ * weakly_canonical(EXTERNAL_DIR) computed in this call (root_kind 3). The path handed to buildEntry must be the one that came out of
+ * weakly_canonical AND was the argument of the isContained(base, .) that returned true AND passed is_regular_file (O4, requires of buildEntry). */
+const EmbeddedAsset *Assets_findStatic_contract(const Assets *self, iora_sv path)
+__CPROVER_requires(IORA_TRUE) __CPROVER_assigns()
+__CPROVER_ensures(__CPROVER_return_value == NULL || __CPROVER_is_fresh(__CPROVER_return_value, sizeof(EmbeddedAsset)));
+bool Assets_isExternalPath_contract(const Assets *self, iora_sv path)
+__CPROVER_requires(IORA_TRUE) __CPROVER_assigns() __CPROVER_ensures(1);
+
+GetStaticResult Assets_getStaticEmbedded_contract(const Assets *self, iora_sv path)
+__CPROVER_requires(IORA_TRUE && __CPROVER_is_fresh(self, sizeof(*self)) && __CPROVER_is_fresh(self->_registry, sizeof(EmbeddedAssetRegistry)))
+__CPROVER_requires(G_npaths == 0 && G_root_kind == 3 && G_fs_calls == 0)
+/* compiled-in content is, by construction, not read from the filesystem */
+__CPROVER_requires(ENTRY_OK(&G_embedded_entry))
+__CPROVER_assigns(G_fs_calls, G_npaths, __CPROVER_object_whole(G_path), G_new_entry)
+/* X1 */ __CPROVER_ensures(__CPROVER_return_value.status == Status_Found ==> (__CPROVER_return_value.blob.entry != NULL && ENTRY_OK(__CPROVER_return_value.blob.entry)))
+/* X2 */ __CPROVER_ensures(__CPROVER_return_value.status != Status_Found ==> __CPROVER_return_value.blob.entry == NULL)
+/* X3 an embedded hit touches no filesystem stub */
+__CPROVER_ensures((__CPROVER_return_value.status == Status_Found && __CPROVER_return_value.blob.entry == &G_embedded_entry) ==> G_fs_calls == 0)
+;
+void h_getStaticEmbedded(void)
+{
+  const Assets *a; iora_sv p;
+  GetStaticResult r = Assets_getStaticEmbedded_real(a, p);
+  IORA_CANARY("h_getStaticEmbedded: returns");
+  if (r.status == Status_Found && r.blob.entry == &G_embedded_entry) { IORA_CANARY("h_getStaticEmbedded: embedded hit"); }
+  if (r.status == Status_Found && r.blob.entry == &G_new_entry) { IORA_CANARY("h_getStaticEmbedded: served from the external directory"); }
+  if (r.status == Status_Rejected) { IORA_CANARY("h_getStaticEmbedded: rejected"); }
+}
